@@ -132,6 +132,10 @@ def run(ctx):
     add_group('function-name-valid', [func, ('P', pm, [units.var(pl, 'v', 'i')], [('a', pl, [pl])]), ('E', 964, [965], None)], None)
     add_group('function-name-as-variable', [func, ('P', pm, [units.var(pl, 'v', 'i')], [('a', pl, [fn])]), ('E', 964, [965], None)],
               'undefined-var-named-like-function')
+    # one undeclared type used by two unrelated declarations: both uses are reported, whichever is analysed first
+    ut, u1, u2, uv1, uv2 = 970, 971, 972, 973, 974
+    add_group('unknown-type-used-twice', [('P', u1, [units.var(uv1, 'v', ('n', ut)), units.var(975, 'v', 'i')], [('a', 975, [])]),
+                                          ('F', u2, [units.var(uv2, 'v', ('n', ut))], []), ('E', 976, [977], None)], 'unknown-type')
     for _ in range(3 if ctx.quick() else 40):
         decls, ns = units.gen_valid(rng, size=rng.choice([1, 2]))
         add_group('random-valid', decls, None)
@@ -140,14 +144,26 @@ def run(ctx):
             fk, code, ds = rng.choice(ss)
             add_group(f'random-{fk}', ds, fk)
 
-    reqs, meta = [], []
+    reqs, meta, cased_flags = [], [], []
     for gi, g in enumerate(groups):
         for vi, files in enumerate(g['variants']):
             texts, offsets = variant_texts(files)
             cmd = 'analyze' if (vi % 2 == 0) else 'project'
-            reqs.append(cmd + ' ' + ' '.join(core.hexs(t) if t else '-' for t in texts))
+            # every third multi-file variant with file names that differ only in letter case (offsets tables keep the f<i>.st keys:
+            # the answer's file names are mapped back)
+            names = ''
+            if len(texts) >= 2 and vi % 3 == 0:
+                cased = ['unit.st', 'Unit.st', 'UNIT.st', 'uNit.st', 'unIt.st']
+                names = '@names=' + ','.join(core.hexs(cased[k % 5]) for k in range(len(texts))) + ' '
+            reqs.append(cmd + ' ' + names + ' '.join(core.hexs(t) if t else '-' for t in texts))
             meta.append((gi, vi, files, texts, offsets))
+            cased_flags.append(bool(names))
     impl = core.run_lines(core.VH, reqs, jobs=12)
+    import re as _re
+    cased = ['unit.st', 'Unit.st', 'UNIT.st', 'uNit.st', 'unIt.st']
+    def uncased(io):
+        return _re.sub(r'(?<=[@+])(unit\.st|Unit\.st|UNIT\.st|uNit\.st|unIt\.st)(?=:)', lambda m: f'f{cased.index(m.group(1))}.st', io)
+    impl = [uncased(io) if fl else io for io, fl in zip(impl, cased_flags)]
     model = core.run_lines(core.PLCDRV, [units.enc_unit(m[2]) for m in meta], jobs=12) if ctx.model_available else [None] * len(meta)
     ref = {}
     for (gi, vi, files, texts, offsets), io, mo in zip(meta, impl, model):
